@@ -9,7 +9,8 @@ Record case := Case {
   c_filter : mval;
   c_recorded : option mval;     (* None = key absent from the recording's metadata *)
   c_impl_value : nat;           (* _match_metadata_value(filter, metadata.get(k)) *)
-  c_impl_meta : nat             (* match_against_recorded_metadata({k: filter}, metadata) *)
+  c_impl_meta : nat;            (* match_against_recorded_metadata({k: filter}, metadata) *)
+  c_impl_s3 : nat               (* the S3 content filter on the JSON text of the metadata (9 = not applicable) *)
 }.
 
 Definition code_of (r : res bool) : nat :=
@@ -23,4 +24,5 @@ Definition model_meta (c : case) : nat :=
              (match c_recorded c with Some v => [(K, v)] | None => [] end)).
 
 Definition check_case (c : case) : bool :=
-  Nat.eqb (model_value c) (c_impl_value c) && Nat.eqb (model_meta c) (c_impl_meta c).
+  Nat.eqb (model_value c) (c_impl_value c) && Nat.eqb (model_meta c) (c_impl_meta c) &&
+  (Nat.eqb (c_impl_s3 c) 9 || Nat.eqb (model_meta c) (c_impl_s3 c)).
